@@ -173,6 +173,17 @@ class PassModel:
     def pos(self, n):
         return self.order.get(id(n), -1)
 
+    def unlet(self, e, depth=0):
+        """follow `let v = init` for single-assignment locals (value view of an expression)"""
+        e0 = strip(e)
+        while isinstance(e0, dict) and e0.get("k") == "VarRef" and depth < 8:
+            bnd = self.binds.get(e0["v"])
+            if not bnd or bnd[0] != "let" or not isinstance(bnd[1], dict):
+                break
+            e0 = strip(bnd[1])
+            depth += 1
+        return e0
+
     # -- slots -----------------------------------------------------------------
     def guard_var_slot(self, v):
         """v is bound to `n.gradient.borrow_mut()` / `.borrow()` -> n"""
@@ -628,7 +639,10 @@ def r14_default_seed(facts):
     bw = m.bw
     defaults = []     # expressions used when the seed is None
     givens = []       # (expr, bound vars) used when the seed is Some
-    for n, ctx in walk_ctx(m.root):
+    all_nodes = []
+    for b_ in m.facts.nested(bw):
+        all_nodes.extend(walk_ctx(m.facts.root(b_)))
+    for n, ctx in all_nodes:
         k = n.get("k")
         if k == "Match" and var_of(n["scrutinee"]) == m.seedv and peel(n["scrutinee"]).get("k") in ("VarRef", "UpvarRef"):
             for a in n["arms"]:
@@ -724,6 +738,8 @@ def _is_ones_of_self(m, e):
                 ok_n = True
             if x.get("k") == "Call" and resolved(x) == "corgi::array::Array::dimensions" and var_of(x["args"][0]) == m.selfv:
                 ok_n = True
+            if x.get("k") in ("VarRef", "UpvarRef") and m.owner_of_dims(x) == m.selfv:
+                ok_n = True
     if not ok_n:
         return False, "default seed length is not self.values.len() / product of self.dimensions: %s" % show(n_)[:80]
     return True, ""
@@ -753,11 +769,12 @@ def r25_accumulate_arms(facts):
             cases = m.payload_cases(payload, ctx, owner, fld)
             for kind, expr, olds in cases:
                 if kind is None:
-                    c.unk("%s:unmatched" % name, loc(bw, n),
-                          "store into the %s slot where it is not known whether the slot was occupied (not inside / computed by a match on the slot's content)" % name)
+                    c.bad("%s:unmatched" % name, loc(bw, n),
+                          "blind store into the %s slot: the stored value does not depend on whether the slot is occupied (not inside / computed by a "
+                          "match on the slot's content), so an existing contribution is overwritten" % name)
                     continue
                 kinds_seen.setdefault(owner, set()).add(kind)
-                p = peel(expr)
+                p = peel(m.unlet(expr))
                 if kind == "Some":
                     ok = p.get("k") == "Call" and resolved(p) == ADD
                     if ok:
@@ -765,13 +782,15 @@ def r25_accumulate_arms(facts):
                         a1 = _vars_in(p["args"][1])
                         has_old = bool((a0 | a1) & set(olds))
                         other = p["args"][1] if (a0 & set(olds)) else p["args"][0]
-                        has_new = bool(_vars_in(other) - set(olds)) and _only_linear_wrappers(other)
+                        other2 = m.unlet(peel(other)) if peel(other).get("k") == "VarRef" else other
+                        has_new = bool(_vars_in(other) - set(olds)) and (_only_linear_wrappers(other) or _only_linear_wrappers(other2))
                         ok = has_old and has_new
                     c.check(ok, "%s:Some-arm" % name, loc(bw, n),
                             "occupied slot: stores old + new (resolved <&Array as Add<&Array>>::add)",
                             "occupied %s slot is not updated to old + new: %s (an earlier contribution would be lost or combined wrongly)" % (name, show(expr)[:120]))
                 else:
-                    ok = _only_linear_wrappers(expr) and len(_vars_in(expr) - {owner}) >= 1
+                    ex2 = m.unlet(peel(expr)) if peel(expr).get("k") == "VarRef" else expr
+                    ok = (_only_linear_wrappers(ex2) and len(_vars_in(ex2) - {owner}) >= 1) or _only_linear_wrappers(expr)
                     c.check(ok, "%s:None-arm" % name, loc(bw, n), "empty slot: stores the new contribution",
                             "empty %s slot does not store the new contribution as is: %s" % (name, show(expr)[:120]))
         for owner, ks in kinds_seen.items():
@@ -913,7 +932,7 @@ def engine_seed_linearity(c, facts):
         if payload is None:
             continue
         for kind, expr, olds in m.payload_cases(payload, ctx, owner, m.f_grad):
-            p = peel(expr)
+            p = peel(m.unlet(expr))
             if kind == "Some":
                 ok = p.get("k") == "Call" and resolved(p) == ADD and (seedlin(p["args"][0]) or seedlin(p["args"][1]))
                 c.check(ok, "engine:gradient-Some", loc(bw, n), "this pass's contribution to an occupied gradient slot is linear in the seed (old + delta)",
@@ -1401,6 +1420,8 @@ def r24_count_protocol(facts):
             guard = False
             for cond, truth in facts_here:
                 cnd = peel(cond)
+                if cnd.get("k") == "VarRef" and cnd["v"] in binds and binds[cnd["v"]][0] == "let" and isinstance(binds[cnd["v"]][1], dict):
+                    cnd = peel(binds[cnd["v"]][1])
                 if truth and cnd.get("k") == "Call" and callee(cnd) == CELL + "get":
                     r3, ch3 = field_chain(cnd["args"][0])
                     if ch3 == ["is_tracked"] and var_of(r3) == owner:
